@@ -39,6 +39,7 @@ N = dict(
     sf_copy_ctor='^' + SF_RX + r'::shared_future\(' + SF_RX + r' const&\)$',
     sf_copy_assign='^' + SF_RX + r'::operator=\(' + SF_RX + r' const&\)$',
     sf_dtor='^' + SF_RX + r'::~shared_future\(\)$',
+    sf_shift='^' + SF_RX + '& ' + SF_RX + r'::operator<< <c17_future_fn&>\(c17_future_fn&\)$',
     fut_wait=r'^cocls::future<int>::wait\(\)$',
     spbool_dtor=r'^cocls::suspend_point<bool>::~suspend_point\(\)$',
 )
@@ -75,11 +76,19 @@ UNITS = [
     unit('ctor_future', 'sf_ctor_ffn', uses=('tr_invoke', 'aw_subscribe', 'sp_arrow', 'sp_make_default', 'fi_ctor_default', 'env_future_fn', 'promise_set_exc', 'spbool_dtor'),
          extra_types=dict(ACCESS_T, FFN='c17_future_fn', SPBOOL='cocls::suspend_point<bool>', EXCPTR='std::__exception_ptr::exception_ptr', **MAKE_T),
          extra_roots=[N['fi_ctor_default']], extra_boundary=[N['promise_set_exc'], N['spbool_dtor']]),
+    # operator<< (audit E/D1): must keep the state invariant SI like every other member (clause from the property: alive while pending)
+    unit('shift', 'sf_shift', uses=('tr_invoke', 'aw_subscribe', 'sp_arrow', 'env_future_fn', 'promise_set_exc', 'spbool_dtor'),
+         extra_types=dict(ACCESS_T, FFN='c17_future_fn', SPBOOL='cocls::suspend_point<bool>', EXCPTR='std::__exception_ptr::exception_ptr'),
+         extra_boundary=[N['promise_set_exc'], N['spbool_dtor']]),
     unit('init_if_needed', 'sf_init_if_needed', uses=('sp_make_default', 'fi_ctor_default'), extra_types=MAKE_T, extra_roots=[N['fi_ctor_default']]),
     unit('get_promise_default', 'sf_get_promise', uses=('tr_invoke', 'aw_subscribe', 'sp_arrow', 'sp_make_default', 'fi_ctor_default', 'promise_dtor'),
          extra_types=dict(ACCESS_T, **MAKE_T), extra_roots=[N['fi_ctor_default']], harness='h_get_promise', defines=DEFINES + ['GP_CASE_PRE(h) (H_CB(h) == 0)']),
     unit('get_promise_initialised', 'sf_get_promise', uses=('tr_invoke', 'aw_subscribe', 'sp_arrow', 'sp_make_default', 'fi_ctor_default', 'promise_dtor'),
          extra_types=dict(ACCESS_T, **MAKE_T), extra_roots=[N['fi_ctor_default']], harness='h_get_promise', defines=DEFINES + ['GP_CASE_PRE(h) (H_CB(h) != 0)']),
+    # audit E/D2: an awaiter accepted through a copy BEFORE get_promise() (state created by init_if_needed()) - open known finding
+    unit('get_promise_early_awaiter', 'sf_get_promise', uses=('tr_invoke', 'aw_subscribe', 'sp_arrow', 'sp_make_default', 'fi_ctor_default', 'promise_dtor'),
+         extra_types=dict(ACCESS_T, **MAKE_T), extra_roots=[N['fi_ctor_default']], harness='h_get_promise', defines=DEFINES + ['GP_CASE_PRE(h) (H_CB(h) != 0)', 'GP_EARLY 1'],
+         replay=dict(src='c17_await_before_get_promise.cpp', mode='early_awaiter', flags=['-DNDEBUG', '-fsanitize=address', '-g'])),
     unit('ready', 'sf_ready', uses=('sp_arrow',), extra_types=ACCESS_T),
     unit('value', 'sf_value', uses=('sp_arrow',), extra_types=ACCESS_T,
          extra_globals={'TI_NOT_READY': '_ZTIN5cocls25value_not_ready_exceptionE', 'TI_CANCELED': '_ZTIN5cocls24await_canceled_exceptionE'}),
@@ -93,6 +102,8 @@ RP_FLAGS = ['-fsanitize=address', '-g']
 for _u in UNITS:
     if _u['name'] == 'get_promise_default':
         _u['replay'] = dict(src='c17_default_get_promise.cpp', mode='default_get_promise', flags=RP_FLAGS)
+    if _u['name'] == 'shift':      # audit E/D1: operator<< never charged the resolve tracer (state freed while pending)
+        _u['replay'] = dict(src='c17_shift_no_tracer.cpp', mode='shift_drop_all', flags=['-fno-access-control', '-DNDEBUG'] + RP_FLAGS)
     if _u['name'] in ('init_if_needed', 'get_promise_initialised'):
         _u['replay'] = dict(src='c17_default_get_promise.cpp', mode='init_keeps_state', flags=RP_FLAGS)
 UNITS.append(dict(unit('lemma', 'sf_ctor_default'), enforce=None, harness='h_lemma', spec=['C17/sf_spec.h', 'C17/h_lemma.c'], loop_contracts=True, unwind=None,
@@ -102,7 +113,7 @@ DRV = ['drv_default', 'drv_ctor_promise', 'drv_get_promise', 'drv_ready', 'drv_v
        'drv_drop_promise', 'drv_subscribe', 'drv_awaiter_init', 'drv_promise_move']
 SN_RX = r'^cocls::suspend_point<void>::suspend_now\(\)$'
 MERGE_RX = r'^cocls::suspend_point<void>::operator<<\(cocls::suspend_point<void>&&\)$'
-CC, CA, DD, DA, AS, AP, SU, RV, BR, END = range(10)
+CC, CA, DD, DA, AS, AP, SU, RV, BR, END, RE = range(11)     # RE (resolve with an exception): hand-picked orders only, not part of scripts()
 def scripts(maxlen, nh=3, na=2):
     """all well-formed operation sequences of length 0..maxlen (abstract state: owners, subscriptions, resolved)"""
     out = []
@@ -133,19 +144,24 @@ def scripts(maxlen, nh=3, na=2):
             rec(seq + [op], o, ns, r)
     rec([], 1, 0, False)
     return out
-MN = {CC: 'CC', CA: 'CA', DD: 'DD', DA: 'DA', AS: 'AS', AP: 'AP', SU: 'SU', RV: 'RV', BR: 'BR'}
-def drive(prefix, start, script_list, tiers, timeout=300):
-    """one unit per script: CBMC executes a fixed order almost concretely (~10 s); several scripts in one run do not stay concrete"""
+MN = {CC: 'CC', CA: 'CA', DD: 'DD', DA: 'DA', AS: 'AS', AP: 'AP', SU: 'SU', RV: 'RV', BR: 'BR', RE: 'RE'}
+HOW = {1: 'shared_future(Fn(promise))', 0: 'default construction + get_promise()',
+       2: 'default construction + init_if_needed(), a copy is awaited, THEN get_promise()',
+       3: 'default construction + init_if_needed() + operator<<(fn), fn keeps the promise of the operation it starts'}
+def drive(prefix, start, script_list, tiers, timeout=300, extra_drv=()):
+    """one unit per script: CBMC executes a fixed order almost concretely (~10 s); several scripts in one run do not stay concrete.
+    extra_drv: further driver entry points (drv_init_if_needed, drv_shift, drv_future_pending, drv_resolve_exc) for the start modes 2/3 and RE"""
     units = []
-    names = {d: '^%s$' % d for d in DRV}
+    DRV_ = DRV + list(extra_drv)
+    names = {d: '^%s$' % d for d in DRV_}
     names.update({a: N[a] for a in ('fi_dtor', 'fi_ctor_default', 'fi_ctor_pfn')})
-    names_opt = {a: N[a] for a in ('sp_arrow', 'sp_make_default', 'sp_make_pfn', 'aw_subscribe', 'env_promise_fn', 'tr_invoke')}
+    names_opt = {a: N[a] for a in ('sp_arrow', 'sp_make_default', 'sp_make_pfn', 'aw_subscribe', 'env_promise_fn', 'env_future_fn', 'tr_invoke')}
     names_opt['sp_suspend_now'] = SN_RX; names_opt['sp_merge'] = MERGE_RX
-    t = dict(TYPES); t.update(ACCESS_T); t.update(MAKE_T); t.update(PFN='c17_promise_fn', CAW='c17_counting_awaiter')
-    how = 'shared_future(Fn(promise))' if start == 1 else 'default construction + get_promise()'
+    t = dict(TYPES); t.update(ACCESS_T); t.update(MAKE_T); t.update(PFN='c17_promise_fn', CAW='c17_counting_awaiter', FFN='c17_future_fn', EXCPTR='std::__exception_ptr::exception_ptr')
+    how = HOW[start]
     for sc in script_list:
         mn = '_'.join(MN[o] for o in sc)
-        units.append(dict(name='%s_%s' % (prefix, mn), driver='c17_shared_future.cpp', roots=['^%s$' % d for d in DRV] + [N['fi_dtor'], N['fi_ctor_default'], N['fi_ctor_pfn']],
+        units.append(dict(name='%s_%s' % (prefix, mn), driver='c17_shared_future.cpp', roots=['^%s$' % d for d in DRV_] + [N['fi_dtor'], N['fi_ctor_default'], N['fi_ctor_pfn']],
                 names=names, names_opt=names_opt, types=t, globals=GLOBALS, boundary=BOUNDARY[:3] + [SN_RX, MERGE_RX], lib=LIBS,
                 defines=DEFINES + ['C17_DRIVE 1', 'DRIVE_START %d' % start, 'DRIVE_LEN %d' % len(sc), 'DRIVE_SCRIPTS {%s}' % ','.join(str(x) for x in sc + [END])],
                 spec=['C17/sf_spec.h', 'C17/h_drive.c'], harness='h_drive', unwind=max(len(sc), 4) + 2, object_bits=10, kind='bounded', tiers=tiers, timeout=timeout,
@@ -176,11 +192,20 @@ def exhaustive(maxlen):
 UNITS += drive('drive_ctor', 1, QUICK_CTOR, ['quick', 'thorough'])
 UNITS += [dict(u, replay=dict(src='c17_default_get_promise.cpp', mode='default_get_promise', flags=RP_FLAGS)) for u in drive('drive_gp', 0, QUICK_GP, ['quick', 'thorough'])]
 _q = set(tuple(x) for x in QUICK_CTOR)
+# ---- added after the audit (group E)
+# D1: operator<< on the real bodies: every handle dropped while the operation is pending / copies + awaiter, resolution, drops
+UNITS += [dict(u, replay=dict(src='c17_shift_no_tracer.cpp', mode='shift_drop_all', flags=['-fno-access-control', '-DNDEBUG'] + RP_FLAGS))
+          for u in drive('drive_shift', 3, [[DD, RV], [CC, SU, RV, DD]], ['quick', 'thorough'], extra_drv=['drv_init_if_needed', 'drv_shift', 'drv_future_pending'])]
+# D2 (open known finding C17-await-before-get-promise): an awaiter accepted through a copy before get_promise()
+UNITS += [dict(u, replay=dict(src='c17_await_before_get_promise.cpp', mode='early_awaiter', flags=['-DNDEBUG'] + RP_FLAGS))
+          for u in drive('drive_early', 2, [[SU, RV]], ['quick', 'thorough'], extra_drv=['drv_init_if_needed'])]
+# W3: resolution with an exception: every copy rethrows the same exception object, the stored exception_ptr is released exactly once
+UNITS += drive('drive_exc', 1, [[CC, CC, SU, RE, DD], [DD, RE]], ['quick', 'thorough'], extra_drv=['drv_resolve_exc'])
 UNITS += drive('drive_all_ctor', 1, [x for x in exhaustive(4) if tuple(x) not in _q], ['thorough'])
 
 META = dict(
     level='proof',
-    level_text=('Every member of shared_future<int> named by the property (default constructor, the two function-taking constructors, init_if_needed, get_promise, ready, value, '
+    level_text=('Every member of shared_future<int> named by the property (default constructor, the two function-taking constructors, init_if_needed, get_promise, operator<<, ready, value, '
                 'wait, operator co_await, copy constructor, copy assignment, destructor) and the resolve tracer (resolve_cb::charge and its resume lambda) is verified against a contract '
                 'on its real translated body, for every strong count < 2^30 and every state of the future (initialised / pending / ready with or without value), with std::shared_ptr '
                 'modelled as an explicit control block whose drop-to-zero runs the real ~future_internal and frees the block (CBMC use-after-free / double-free checks on). Contract '
@@ -188,20 +213,30 @@ META = dict(
                 'drops exactly that reference and destroys+frees the state iff it was the last one; constructors wire the tracer exactly when the future is pending (count 2 vs 1, one '
                 'allocation); copy shares the same state and adds exactly one reference; destruction / assignment drop exactly one and release the state exactly once iff last - never '
                 'while pending; get_promise on a default-constructed object creates the state and returns a promise bound to it; ready()/value()/wait()/co_await read the shared state '
-                '(value() returns the one object stored in it). Every contract keeps the state invariant "tracer holds its self-reference <=> future pending". A reference lemma over '
+                '(value() returns the one object stored in it; with a stored exception every copy rethrows the one exception object stored in the shared state and the stored '
+                'exception_ptr is released exactly once, by whoever destroys the state). operator<<(fn) (added after an independent audit, clause restated from the property: alive while '
+                'pending) re-targets the state of a non-empty, not pending handle and must leave the tracer charged iff the new operation is pending. get_promise on an initialised handle '
+                'is verified in two cases: nobody awaits yet, and ONE awaiter already accepted through a copy (it must still be subscribed afterwards). '
+                'Every contract keeps the state invariant "tracer holds its self-reference <=> future pending". A reference lemma over '
                 'exactly these reference-count clauses (shared macros), with a loop invariant for an UNBOUNDED history of copies, drops and the resolution, proves: the state is alive '
                 'while pending even with no handle left, it is released exactly once after the last of {handles, tracer} lets go, never twice, never leaked. '
                 'Bounded part (reported separately): fixed orders of copy / assign / destroy / subscribe / resolve / break-promise are EXECUTED on the real bodies including promise, '
-                'future::set/resolve and the awaiter chain walk (18 orders in the quick tier, every order of <= 4 operations in the thorough tier): awaiters resumed exactly once and '
-                'never early, every copy reads the same value object, allocations == frees, no access after free.'),
+                'future::set/resolve and the awaiter chain walk (23 orders in the quick tier, every order of <= 4 operations in the thorough tier): awaiters resumed exactly once and '
+                'never early, every copy reads the same value object, allocations == frees, no access after free. Since the audit the drives also create the state by init_if_needed() + '
+                'operator<<(fn) (fn keeps the promise), by init_if_needed() + an awaiter through a copy + get_promise(), and resolve with an exception (every copy rethrows the same object, '
+                'reference traffic on the exception object balanced).'),
     level_note=('Sequential (single-thread) reading only: the cross-thread clause of the statement (a resolver racing with threads that copy / drop handles) rests on (i) the atomicity of the '
                 'shared_ptr reference count (libstdc++, assumed), (ii) C01/C02 for the future slot (resolved at most once, every subscribed awaiter - here the tracer - resumed exactly '
                 'once), (iii) the invariant proved here; it is argued, not machine-checked. T = int only: destruction of the stored value is observed as "the real ~future_internal ran '
-                'exactly once", not with an instance-counting T; stored-exception and reference states of the future are excluded by precondition. The "any ordering" clause is proved '
+                'exactly once", not with an instance-counting T (the native replays use one); the reference state (T&) of the future is not reachable for T = int. The "any ordering" clause is proved '
                 'on the level of the reference-count clauses (lemma) and cross-checked by executing a bounded set of orders, not proved on the real bodies for unbounded histories. '
                 'awaiter::subscribe_check_ready and (in contract units) promise destruction / the user functions are abstract callees. shared_future::force_wait/join/sync/force_sync, '
-                'operator<<, set_value/set_exception and the conversion operator Base& are not covered. On the unchanged tree the units init_if_needed, get_promise_* and the '
-                'get_promise drives FAIL: init_if_needed has an inverted test (genuine defect, natively reproduced, candidate fix specs/C17/fix_init.diff).'),
+                'set_value/set_exception and the conversion operator Base& are not covered. History: init_if_needed had an inverted test (fixed in /repo 07e3080, specs/C17/fix_init.diff). '
+                'Found by an independent audit (group E) and now detected: (D1) operator<< never charged the resolve tracer - state freed while pending, use-after-free at resolution '
+                '(units shift, drive_shift_DD_RV; replay/c17_shift_no_tracer.cpp; candidate fix specs/C17/fix_shift_tracer.diff); (D2) an awaiter accepted through a copy after '
+                'init_if_needed() but before get_promise() is dropped by future::get_promise (exchange(nullptr)) and never resumed - judged in scope of "every awaiter of any copy is '
+                'resumed exactly once" (the consumer cannot observe whether the promise was taken; subscribe() returned true), no small repair inside shared_future.h: OPEN known finding '
+                'C17-await-before-get-promise (units get_promise_early_awaiter, drive_early_SU_RV; replay/c17_await_before_get_promise.cpp).'),
     technique=('CBMC 6.11 code contracts (requires/ensures/assigns/frees, __CPROVER_pointer_equals) enforced per function via goto-instrument --dfcc on the C translation of the clang IR of '
                'shared_future.h; std::shared_ptr boundary at std::__shared_count with a control-block model; lemma harness with a loop contract over the contract clauses; bounded '
                'execution of fixed operation orders on the translated real bodies; SAT back end cadical'),
@@ -212,7 +247,8 @@ META = dict(
                   'drive only: suspend_point::operator<< / suspend_now replaced by stubs that assert they only ever see empty suspend points'],
     assumptions=['strong count < 2^30 (no counter overflow)', 'single thread; atomic reference counting of std::shared_ptr is libstdc++\'s responsibility',
                  'the function passed to a constructor does not throw (future::result_of catch branch is an explicit "not covered" obligation that is unreachable)',
-                 'future states "stored exception" and "reference" excluded by precondition in dtor / value / tracer units',
+                 'a stored exception is an exception object of the exception model (lib/rt_core.c: reference traffic counted, object opaque); the reference state (T&) does not occur for T = int',
+                 'operator<<: documented preconditions stated in its contract - the handle is not empty (class documentation: call init_if_needed() / get_promise() on a default-constructed object first) and its future is not pending (future::result_of destroys and re-creates the future; "Destroy of pending future")',
                  'C01/C02 (assumed by the lemma): a pending future is resolved at most once and resolution resumes every subscribed awaiter exactly once',
-                 'get_promise() on a non-empty handle requires an initialised, not yet pending future (future::get_promise precondition)'],
+                 'get_promise() on a non-empty handle requires an initialised future whose promise has not been taken yet (future::get_promise precondition); awaiters accepted before that are NOT excluded (case GP_EARLY of the contract: one such awaiter; open known finding C17-await-before-get-promise)'],
     explanation='see level_text / level_note')
